@@ -95,6 +95,7 @@ add("self-parent-not-looked-up","C07","spec.go","\tif viaRef || (schn != nm && s
 add("alias-loop-unbounded","C07","spec.go","\t\tif _, again := followed[ref]; again {\n\t\t\treturn append(ancs, ref), res\n\t\t}\n","","REF-WALK:(*SpecValidator).validateCircularAncestry:loop", quick=False)
 add("options-appended-in-place","C05","schema.go","\topts := make([]Option, 0, len(options)+2)\n\topts = append(opts, options...)\n\topts = append(opts, WithRecycleValidators(true), withRecycleResults(true))\n","\topts := append(options, WithRecycleValidators(true), withRecycleResults(true))\n","VARIADIC-APPEND:AgainstSchema:options", quick=False)
 add("expansion-assumed-after-whole-document","C07","spec.go","\tprobe, err := deepCloneSchema(*schema)\n\tif err != nil {\n\t\treturn false\n\t}\n\n\treturn spec.ExpandSchema(&probe, s.spec.Spec(), nil) == nil","\tif s.expanded != nil {\n\t\treturn true\n\t}\n\tprobe, err := deepCloneSchema(*schema)\n\tif err != nil {\n\t\treturn false\n\t}\n\n\treturn spec.ExpandSchema(&probe, s.spec.Spec(), nil) == nil","EXPAND-FIRST:", quick=False)
+add("referenced-default-not-resolved","C18","object_validator.go","\t\tif pSchema.Ref.String() != \"\" {\n","\t\tif false && pSchema.Ref.String() != \"\" {\n","REF-BLIND:(*objectValidator).validatePropertiesSchema:Default", quick=False)
 json.dump(C, open('/verif/tables/controls.json','w'), indent=1)
 import os
 for c in C:
